@@ -41,7 +41,7 @@ def gen_model(rng, idx, only_ind=False):
   from tensorflow.keras import Model, Input
   import qkeras
   meta = {}
-  kind = int(rng.integers(0, 3))
+  kind = idx % 3 if idx < 9000 else int(rng.integers(0, 3))      # dense / conv2d / conv1d models in rotation
 
   def wq(name, slot, pool=WQ):
     if only_ind:
@@ -74,9 +74,14 @@ def gen_model(rng, idx, only_ind=False):
         n = f"sp{idx}_{j}"
         x = qkeras.QSeparableConv2D(int(rng.integers(1, 4)), 3, padding="same", use_bias=ub, depthwise_quantizer=wq(n, "depthwise"),
                                     pointwise_quantizer=wq(n, "pointwise"), bias_quantizer=wq(n, "bias", BQ) if ub else None, name=n)(x)
-    if rng.integers(0, 2):
-      x = qkeras.QAveragePooling2D(2, average_quantizer=pick(rng, ["quantized_bits(8,0,1)", "quantized_bits(4,0,0)"]), name=f"p{idx}")(x)
-    x = L.Flatten(name=f"f{idx}")(x)
+    pk = (idx // 3) % 3                      # pooling in rotation: none, windowed (square / rectangular), global
+    if pk == 1:
+      x = qkeras.QAveragePooling2D(pick(rng, [2, (2, 1), (1, 2), (2, 4)]), average_quantizer=pick(rng, ["quantized_bits(8,0,1)", "quantized_bits(4,0,0)"]), name=f"p{idx}")(x)
+      x = L.Flatten(name=f"f{idx}")(x)
+    elif pk == 2:
+      x = qkeras.QGlobalAveragePooling2D(average_quantizer=pick(rng, ["quantized_bits(8,0,1)", "quantized_bits(10,0,0)"]), name=f"gp{idx}")(x)
+    else:
+      x = L.Flatten(name=f"f{idx}")(x)
   else:
     inp = Input((10, 3), name=f"i{idx}")
     n = f"c1_{idx}"
@@ -266,8 +271,8 @@ def main():
           if not same_bits(hw, w_got):
             good = False
             rep.violation(f"hw-weight-differs-{i}-{l.name}-{k}", f"{l.name} weight {k} ({q}): dictionary weight differs from the stored weight", {})
-      if type(l).__name__ == "QAveragePooling2D":
-        area = int(np.prod(l.pool_size))
+      if type(l).__name__ in ("QAveragePooling2D", "QGlobalAveragePooling2D"):
+        area = int(np.prod(l.pool_size)) if type(l).__name__ == "QAveragePooling2D" else int(np.prod(l.input.shape[1:3]))
         wantq = np.asarray(l.average_quantizer_internal(1.0 / area))
         if e.get("pool_area") != area or not same_bits(e.get("q_mult_factor"), wantq) or e.get("mult_factor") != 1.0 / area:
           good = False
@@ -450,8 +455,67 @@ def main():
     rep.finding("C14-freeze-utility-skips-first-layer-of-sequential-under-keras3",
                 f"clone_model_and_freeze_auto_po2_scale on a Sequential model raises {type(e).__name__}: {str(e)[:140]} "
                 "(Keras 3 Sequential.layers has no InputLayer, the utility drops layers[0]); functional models are used instead", {})
+  # ---- folded conv + batch-norm layers: the dictionary carries quantizer(folded weight), the layer keeps its unfolded weights
+  try:
+    env.install_keras2_batchnorm_standin()
+    from qkeras.qconv2d_batchnorm import QConv2DBatchnorm
+    from qkeras.qdepthwiseconv2d_batchnorm import QDepthwiseConv2DBatchnorm
+    from tensorflow.keras import Model as Model_
+    n_fold = n_fold_ok = 0
+    for i in range(6 if rep.tier == "quick" else 60):
+      dw = bool(i % 2)
+      kq = ["quantized_bits(6,1,1,alpha=1.0)", "quantized_bits(4,0,1,alpha=1.0)", "quantized_po2(5)"][i % 3]
+      bq = [None, "quantized_bits(8,3,1)"][(i // 2) % 2]
+      i_ = Input((6, 6, 2), name=f"fi{i}")
+      if dw:
+        fl = QDepthwiseConv2DBatchnorm((2, 2), depthwise_quantizer=kq, bias_quantizer=bq, use_bias=bool(i % 3), scale=bool((i // 3) % 2), name=f"fdw{i}")
+      else:
+        fl = QConv2DBatchnorm(3, (2, 2), kernel_quantizer=kq, bias_quantizer=bq, use_bias=bool(i % 3), center=bool((i // 3) % 2), name=f"fc{i}")
+      fm = Model_(i_, fl(i_), name=f"fm{i}")
+      fm(np.zeros((1, 6, 6, 2), dtype="float32"), training=False)
+      for v in fl.weights + fl.batchnorm.weights:
+        val = rng.uniform(0.2, 1.4, size=v.shape).astype("float32")
+        if "variance" not in v.name and "gamma" not in v.name:
+          val = val * rng.choice([-1.0, 1.0], size=v.shape).astype("float32")
+        v.assign(val)
+      w_before = [w.copy() for w in fl.get_weights()]
+      fw = [np.asarray(a) for a in fl.get_folded_weights()]
+      n_fold += 1
+      rep.count(("folded-export", i, dw, kq, bq))
+      # the pair finder clones the model by config + set_weights; a cloned folded layer has not yet built its batch-norm stand-in
+      # (Keras 3 builds sub-layers at the first eager call), so for these one-layer models - which contain no
+      # QBatchNormalization to pair - the finder is replaced by its result on them: no pairs
+      real_find = U.find_bn_fusing_layer_pair
+      U.find_bn_fusing_layer_pair = lambda model_, custom_objects={}: ({}, set())
+      try:
+        d_ = U.model_save_quantized_weights(fm)
+      finally:
+        U.find_bn_fusing_layer_pair = real_find
+      ent = d_.get(fl.name, {})
+      hwf = ent.get("weights", [])
+      qs_ = fl.get_quantizers()
+      okf = len(hwf) == 2
+      for k in range(2 if okf else 0):
+        wantw = qs_[k](tf.constant(fw[k])).numpy() if qs_[k] else fw[k]
+        isp = qs_[k] is not None and "po2" in type(qs_[k]).__name__
+        if isp:
+          wantw = np.round(np.log2(np.abs(wantw)))       # power-of-two weights are stored as exponents, signs separately
+        if not same_bits(hwf[k], wantw):
+          okf = False
+      if not okf:
+        rep.violation(f"folded-export-{i}", f"{fl.name} ({kq}, {bq}): the exported weights are not quantizer(get_folded_weights()) "
+                      f"(power-of-two: its exponent)", {"kernel_quantizer": kq, "bias_quantizer": bq})
+      elif any(not np.array_equal(a, b) for a, b in zip(w_before, fl.get_weights())):
+        rep.violation(f"folded-export-touches-layer-{i}", f"{fl.name}: the export overwrote the unfolded weights of a folded layer", {})
+      else:
+        n_fold_ok += 1
+    rep.note(folded_layer_exports=n_fold, folded_layer_exports_ok=n_fold_ok)
+  except Exception as e:  # pylint: disable=broad-except
+    import traceback
+    rep.violation("folded-export-raises", f"export of a folded layer raised {type(e).__name__}: {str(e)[:200]} @ {traceback.format_exc()[-300:]}", {})
   U.find_bn_fusing_layer_pair = orig_find
-  rep.assumptions += ["find_bn_fusing_layer_pair needs four Keras-2 accessors (known finding); the harness installs them as pure accessors and the real finder runs; "
+  rep.assumptions += ["folded layers are built through the batch-norm stand-in of harness/env.py (see C15)",
+                      "find_bn_fusing_layer_pair needs four Keras-2 accessors (known finding); the harness installs them as pure accessors and the real finder runs; "
                       "QBatchNormalization does not build under the pinned Keras 3, so add_bn_fusing_weights is driven on stand-in layers exposing the "
                       "attributes it reads; rsqrt is an oracle (the harness passes TensorFlow's value to the model)",
                       "layer weights / predictions / second export are compared bitwise on the implementation; the hardware tuples are judged by the Coq "
